@@ -34,6 +34,8 @@ pub struct Model {
     /// statistics for non-triviality classification
     pub stuck_seen: u64,
     pub measurements: u64,
+    /// if Some: the pool value after every fold, every rotation and the stir of a collection
+    pub trace: Option<Vec<u64>>,
 }
 
 /// facts about one `test_timer` run, for C13's validity predicate
@@ -108,6 +110,44 @@ pub fn pool_for_result(script: &Script, offset: usize, rounds: u32, want: u64, b
     }
 }
 
+/// Pool content p0 such that, in the collection that starts at reading `offset`, the pool holds
+/// exactly `want` at intermediate stage number `stage` (counted over every fold, every rotation
+/// and the final stir; taken modulo the number of stages). Every stage is affine in p0.
+pub fn pool_for_stage(script: &Script, offset: usize, rounds: u32, stage: usize, want: u64, budget: usize) -> Option<u64> {
+    use crate::gf2::{Bits, Matrix};
+    let run = |p0: u64| -> Option<Vec<u64>> {
+        let mut m = Model::new(script.clone());
+        m.reads = offset;
+        m.rounds = rounds;
+        m.pool = p0;
+        m.trace = Some(Vec::new());
+        m.collect(budget)?;
+        m.trace
+    };
+    let t0 = run(0)?;
+    if t0.is_empty() {
+        return None;
+    }
+    // stages above usize::MAX / 2 count from the end: usize::MAX = after the stir, usize::MAX - 1 =
+    // before the stir (after the last rotation), ...
+    let s = if stage > usize::MAX / 2 { t0.len() - 1 - ((usize::MAX - stage) % t0.len()) } else { stage % t0.len() };
+    let c = t0[s];
+    let mut cols = Vec::with_capacity(64);
+    for i in 0..64 {
+        let mut b = Bits::ZERO;
+        b.0[0] = run(1u64 << i)?.get(s).copied()? ^ c;
+        cols.push(b);
+    }
+    let mut t = Bits::ZERO;
+    t.0[0] = want ^ c;
+    let p0 = Matrix { n: 64, cols }.solve(&t)?.0[0];
+    if run(p0)?.get(s).copied()? == want {
+        Some(p0)
+    } else {
+        None
+    }
+}
+
 /// Pool content p0 such that the collection starting at `offset` returns `p0 ^ relation`
 /// (relation = 0: a fixed point of the collection map).
 pub fn pool_for_relation(script: &Script, offset: usize, rounds: u32, relation: u64, budget: usize) -> Option<u64> {
@@ -139,7 +179,7 @@ pub fn pool_for_relation(script: &Script, offset: usize, rounds: u32, relation: 
 
 impl Model {
     pub fn new(script: Script) -> Model {
-        Model { script, reads: 0, pool: 0, rounds: 64, half: false, stuck_seen: 0, measurements: 0 }
+        Model { script, reads: 0, pool: 0, rounds: 64, half: false, stuck_seen: 0, measurements: 0, trace: None }
     }
 
     fn read(&mut self) -> u64 {
@@ -164,12 +204,18 @@ impl Model {
         let _loops_lfsr = self.read();
         // the 32-bit delta is folded sign-extended to 64 bits
         self.pool = fold(self.pool, delta as i32 as i64 as u64);
+        if let Some(t) = &mut self.trace {
+            t.push(self.pool);
+        }
         self.measurements += 1;
         if Self::stuck(ec, delta) {
             self.stuck_seen += 1;
             return false;
         }
         self.pool = self.pool.rotate_left(7);
+        if let Some(t) = &mut self.trace {
+            t.push(self.pool);
+        }
         true
     }
 
@@ -185,6 +231,9 @@ impl Model {
             }
         }
         self.pool = stir(self.pool);
+        if let Some(t) = &mut self.trace {
+            t.push(self.pool);
+        }
         Some(self.pool)
     }
 
